@@ -106,6 +106,7 @@ type rwFull struct{ *rwCore }
 func (f rwFull) Flush()                   { f.calls = append(f.calls, "Flush") }
 func (f rwFull) CloseNotify() <-chan bool { return make(chan bool) }
 func (f rwFull) Hijack() (net.Conn, *bufio.ReadWriter, error) {
+	f.calls = append(f.calls, "Hijack")
 	return nil, nil, errors.New("not supported")
 }
 func (f rwFull) ReadFrom(r io.Reader) (int64, error) {
@@ -222,6 +223,15 @@ func (r *c18Run) final() http.Handler {
 			case 5:
 				w.Header().Set("Etag", fmt.Sprintf(`"etag-%d"`, q.i))
 				w.Header().Set("X-Resp", fmt.Sprintf("resp-%d", q.i))
+			case 6:
+				// the pass-through capabilities of the full proxy: they must reach the
+				// underlying writer and leave the accounting alone
+				if hj, ok := w.(http.Hijacker); ok {
+					hj.Hijack()
+				}
+				if cn, ok := w.(http.CloseNotifier); ok {
+					cn.CloseNotify()
+				}
 			}
 		}
 		switch q.panics {
@@ -338,6 +348,7 @@ func (r *c18Run) checkFields(q *c18Req, picks []int) string {
 		6:  {"referer", req.Header.Get("Referer")},
 		7:  {"proto", req.Proto},
 		8:  {"httpv", strings.TrimPrefix(req.Proto, "HTTP/")},
+		9:  {"req_id", "<request-id>"},
 		10: {"custom", req.Header.Get("X-Custom")},
 		11: {"host", req.Host},
 		12: {"host_noport", hostOnly(req.Host)},
@@ -447,7 +458,7 @@ func (c18World) Run(prop string, ch *zsim.Choices, trace bool) *RunResult {
 			}
 			nops := ch.Intn(7)
 			for k := 0; k < nops; k++ {
-				q.ops = append(q.ops, ch.Weighted(3, 4, 2, 1, 3, 1))
+				q.ops = append(q.ops, ch.Weighted(3, 4, 2, 1, 3, 1, 1))
 				q.args = append(q.args, ch.Intn(1000))
 			}
 			r.reqs = append(r.reqs, q)
